@@ -119,6 +119,9 @@ pub fn kind_bounds() -> Vec<(i32, Option<(f64, f64)>)> {
         (KIND_CONTINUOUS, Some((-inf, inf))),
         (KIND_CONTINUOUS, Some((2.0, 2.0))),
         (KIND_CONTINUOUS, Some((-3.0, -0.5))),
+        // a binary variable keeps an explicit bound: fixed at 1 / at 0
+        (KIND_BINARY, Some((1.0, 1.0))),
+        (KIND_BINARY, Some((0.0, 0.0))),
     ]
 }
 
